@@ -23,7 +23,7 @@ ASSUMPTIONS = ['vlib.refdt is an independent re-statement of the documented data
                'documented conversions and not flagged']
 REQUIRED = ['wire_cases', 'drv_cases', 'oracle_sound', 'oracle_same', 'oracle_idempotent', 'oracle_reject']
 
-N = {'quick': 14000, 'thorough': 600000}
+N = {'quick': 40000, 'thorough': 1500000}
 
 
 def plan(tier, seed, scale=1.0):
